@@ -40,5 +40,6 @@ func StepDeadline(n int, label string)     {}
 func Go(f func())                          {}
 func Join()                                {}
 func Yield()                               {}
+func TempDir() string                      { return "/zz/root" }
 func TimeOf(ns int64) time.Time            { return time.Time{} }
 func ReplayMain(fns map[string]func())     {}
